@@ -406,11 +406,15 @@ def explore(prop_id, plan, workers=None, log=print):
 
 
 def load_known():
-  p = os.path.join(env.VERIF, "known_findings.json")
-  if not os.path.exists(p):
-    return []
-  with open(p, encoding="utf-8") as f:
-    return json.load(f).get("findings", [])
+  """known_findings.json plus known_findings.d/*.json (committed, never written at run time)"""
+  import glob
+  out = []
+  paths = [os.path.join(env.VERIF, "known_findings.json")] + sorted(glob.glob(os.path.join(env.VERIF, "known_findings.d", "*.json")))
+  for p in paths:
+    if os.path.exists(p):
+      with open(p, encoding="utf-8") as f:
+        out.extend(json.load(f).get("findings", []))
+  return out
 
 
 def match_known(known, prop_id, clause, disc):
@@ -550,7 +554,7 @@ def run_property(mod, tier, seed, log=print, confirm=True):
       log(f"note: listed finding not observed in this run (tier/slice may not reach it): {k['clause']} {k['disc']}")
 
   exit_code = 0
-  rdir = os.path.join(env.VERIF, "replays", prop_id)
+  rdir = os.path.join(env.VERIF if os.path.realpath(env.REPO) == "/repo" else "/tmp/verif-scratch-replays", "replays", prop_id)
   unconfirmed = 0
   for clause, disc, n, rec in new_viol:
     os.makedirs(rdir, exist_ok=True)
@@ -609,8 +613,11 @@ def run_property(mod, tier, seed, log=print, confirm=True):
     "wall_s": round(time.time() - t0, 2),
     "violations": sum(n for _c, _d, n, _r in new_viol),
   }
-  os.makedirs(os.path.join(env.VERIF, "evidence"), exist_ok=True)
-  with open(os.path.join(env.VERIF, "evidence", f"{prop_id}.json"), "w", encoding="utf-8") as f:
+  # evidence is only ever written for runs against the repository itself; runs against scratch worktrees
+  # (TTCONV_REPO, used to try the checks on seeded changes) write to a scratch directory
+  evdir = os.path.join(env.VERIF, "evidence") if os.path.realpath(env.REPO) == "/repo" else "/tmp/verif-scratch-evidence"
+  os.makedirs(evdir, exist_ok=True)
+  with open(os.path.join(evdir, f"{prop_id}.json"), "w", encoding="utf-8") as f:
     json.dump(ev, f, indent=1)
   log(f"[{prop_id}] tier={tier} seed={seed} evaluations={total.evaluations} distinct_nontrivial={total.distinct_nontrivial} "
       f"states={total.states} transitions={total.transitions} outcome_classes={len(total.outcomes)} "
